@@ -33,7 +33,7 @@ func init() { core.Register(prop{}) }
 func (prop) ID() string    { return "C07" }
 func (prop) Level() string { return "fault_enumeration" }
 func (prop) Rule() string {
-	return "direct: every sequence of up to 4 (quick) / 6 (thorough) single-line writes with line lengths from {10, 11, 511, 512, 1022, 1023, 1024, 1025, 2049} to the real rotating writer with max size 1024 (exhaustive), seeded sequences of multi-line batches for max sizes 1024/4096/1 MiB, with the log file renamed or removed externally, or the writer closed and a new instance opened on the same path (restart), between writes (fault points: before every write; restart exhaustively for sequences up to 3 writes); end to end: the real FileBackend fed bursts of 1..5000 stamped events of 2 B..600 KiB from 1/4/32 goroutines, read back 2.5 s after the last Send and again until the files have been at rest for 2 s; faults: destination directory missing or unwritable before the writer opens the file. Non-trivial = a sequence that caused >=1 rotation or a backend whose file received >=1 line; distinct by sequence / backend parameters. In a third of the real-backend scenarios an unserialisable event (NaN value) follows every fifth stamped event. Fault dir-removed-later: after three events and one flush interval the directory that holds the log file is removed for good; the remaining Sends must return."
+	return "direct: every sequence of up to 4 (quick) / 6 (thorough) single-line writes with line lengths from {10, 11, 511, 512, 1022, 1023, 1024, 1025, 2049} to the real rotating writer with max size 1024 (exhaustive), seeded sequences of multi-line batches for max sizes 1024/4096/1 MiB, with the log file renamed or removed externally, or the writer closed and a new instance opened on the same path (restart), between writes (fault points: before every write; restart exhaustively for sequences up to 3 writes); end to end: the real FileBackend fed bursts of 1..5000 stamped events of 2 B..600 KiB from 1/4/32 goroutines, read back 2.5 s after the last Send and again until the files have been at rest for 2 s; faults: destination directory missing or unwritable before the writer opens the file. Non-trivial = a sequence that caused >=1 rotation or a backend whose file received >=1 line; distinct by sequence / backend parameters. In a third of the real-backend scenarios an unserialisable event (NaN value) follows every fifth stamped event. Fault dir-removed-later: after three events and one flush interval the directory that holds the log file is removed for good; the remaining Sends must return. Trickle scenarios: one event every 250 ms for five seconds; after three seconds the first four events must be on disk although events keep coming; the channel is closed right after the last event and everything it accepted must still be written."
 }
 func (prop) Assumptions() []string {
 	return []string{"a final line without trailing newline counts as a line if it parses", "lines removed by the harness's own external 'rm' are not expected back; an externally renamed file is read back under its new name", "under an unwritable destination only 'Send does not block forever' is demanded"}
@@ -414,6 +414,12 @@ func childBackend(b core.Batch, p params, o *core.Obs) {
 			// events that cannot be serialised (a NaN value) are sent in between: the channel may drop them, the
 			// events around them it has accepted like any other
 			poison := r.Chance(1, 3)
+			trickle := fault == "" && i%16 == 7
+			if trickle {
+				// a steady trickle: one event every 250 ms for five seconds. What was sent two flush intervals ago
+				// must be on disk while the events keep coming
+				writers, nev, big, poison = 1, 20, false, false
+			}
 			desc := fmt.Sprintf("maxsize=%d events=%d writers=%d big=%v fault=%s unserialisable-events-in-between=%v", maxSize, nev, writers, big, fault, poison)
 			switch fault {
 			case "missing-dir":
@@ -449,6 +455,18 @@ func childBackend(b core.Batch, p params, o *core.Obs) {
 				go func(wi int) {
 					defer swg.Done()
 					for s := wi; s < nev; s += writers {
+						if trickle {
+							time.Sleep(250 * time.Millisecond)
+							if s == 12 {
+								rb := readAll(path, maxSize)
+								for early := 0; early < 4; early++ {
+									if rb.Stamps[early] == 0 {
+										bad("not-flushed-while-events-keep-coming", fmt.Sprintf("event %d was sent more than two seconds ago and is on no file; one event has been sent every 250 ms since (files on disk: %d)", early, rb.Files), desc)
+										break
+									}
+								}
+							}
+						}
 						if fault == "dir-removed-later" && s == 3 {
 							time.Sleep(1500 * time.Millisecond)
 							os.RemoveAll(filepath.Join(dir, "logs"))
@@ -474,6 +492,12 @@ func childBackend(b core.Batch, p params, o *core.Obs) {
 				}(wi)
 			}
 			swg.Wait()
+			if trickle {
+				// the channel is closed right after the last event: what it has accepted is still written
+				if c, ok := ch.(interface{ Close() }); ok {
+					c.Close()
+				}
+			}
 			mu.Lock()
 			ob.Backends++
 			ob.Events += nev
